@@ -523,7 +523,7 @@ func checkC12(c *runCtx) {
 		"reference: owner[canonical source] = last live writer; fallback registered[ufrag before ':'][family of the canonical source]; removed or closed connections own nothing")
 	p := newVTPool()
 	defer p.close()
-	dl := c01deadline(c, 120, 1200)
+	dl := c01deadline(c, 240, 1200)
 	depth := 6
 	if !c.quick() {
 		depth = 7
